@@ -58,6 +58,7 @@ def run(ctx):
     s9(ctx)
     s8(ctx)
     s2t(ctx)
+    s3n(ctx)
 
 
 # ---------------------------------------------------------------------------------- taint
@@ -932,3 +933,65 @@ def s2t(ctx):
                 ctx.bad('S2t', key, 'row %s of a fixed-base table is accessed without a bound below TMCG_MAX_FPOWM_T (%s rows are allocated): a row count or '
                         'exponent length taken from stream-supplied group parameters runs past the table' % (T.show(it, 3), rows), f, line=line)
     ctx.floor('S2t', n, 6)
+
+
+# ---------------------------------------------------------------------------------- S3n
+S3N_EXCEPTIONS = {
+    'BarnettSmartVTMF_dlog::CheckGroup': 'the only power not covered is in the generator re-derivation, reached after p was found prime (S8); its base is H(U)^k mod p, '
+                                         'which is zero only if p divides the hash value; with negated q and k the check refuses without a signal (differential harness of the n16 corpus)',
+}
+
+
+def s3n(ctx):
+    """negative exponents in the validity checks: mpz_powm with a negative exponent inverts the base first and raises a
+    division by zero (SIGFPE) when the base is not invertible.  In CheckGroup / CheckElement the exponent is the member q and
+    the base is a member or the tested value -- all of them from the wire for a stream-constructed object -- and the order
+    test is evaluated before (or without) a test that the base is a unit.  So every mpz_powm(.., base, this.q, this.p) in a
+    validity check must hold the fact 0 < q on every path (a test "q != 0" lets the negated order through)."""
+    prog = ctx.prog
+    n = 0
+    for k, f in sorted(prog.funcs.items(), key=lambda kv: (kv[1]['file'], kv[1]['line'])):
+        if not f.get('body') or f['q'].split('::')[-1] != 'CheckGroup':
+            continue            # CheckElement tests a value against a group that CheckGroup has accepted (the caller's order of calls)
+        a = ctx.analysis(f)
+        T = a.T
+        q = T.mk('this', 'q')
+        seen = set()
+        for nid, ev in sorted(a.all_events('call'), key=lambda x: (x[1][3] if len(x[1]) > 3 and isinstance(x[1][3], int) else 0, x[0])):
+            if ev[1] != 'mpz_powm' or len(ev[2]) < 4 or ev[2][2] != q:
+                continue
+            st = a.instate[nid]
+            pos = False
+            for fa in st.facts:
+                fn_ = T.node(fa)
+                if fn_[0] == 'rel' and fn_[1] == '<' and fn_[3] == q and T.is_int(fn_[2]) and T.node(fn_[2])[1] >= 0:
+                    pos = True
+                if fn_[0] == 'rel' and fn_[1] == '<=' and fn_[3] == q and T.is_int(fn_[2]) and T.node(fn_[2])[1] >= 1:
+                    pos = True
+                # bits(q) >= G_size does not help: the size of a negative number is the size of its absolute value
+            if not pos:
+                # the other way to be safe: the base is a unit -- p is (probably) prime and 0 < base < p was tested before
+                base, mod = ev[2][1], ev[2][3]
+                prime = any(T.node(fa)[0] == 'truthy' and T.op(T.node(fa)[1]) == 'isprime' and T.node(T.node(fa)[1])[1] == mod for fa in st.facts)
+                lo = any(T.node(fa)[0] == 'rel' and T.node(fa)[1] in ('<', '<=') and T.node(fa)[3] == base and T.is_int(T.node(fa)[2]) and
+                         (T.node(T.node(fa)[2])[1] >= 1 or (T.node(fa)[1] == '<' and T.node(T.node(fa)[2])[1] >= 0)) for fa in st.facts)
+                hi = any(T.node(fa)[0] == 'rel' and T.node(fa)[1] in ('<', '<=') and T.node(fa)[2] == base and
+                         (T.node(fa)[3] == mod or T.show(T.node(fa)[3], 3) in ('sub(%s,1)' % T.show(mod, 1), 'op(-,%s,1)' % T.show(mod, 1))) for fa in st.facts)
+                pos = prime and lo and hi
+            key = 'S3n:%s' % f['q']
+            if key in seen:
+                continue
+            n += 1
+            if pos:
+                continue
+            seen.add(key)
+            line = ev[3] if len(ev) > 3 and isinstance(ev[3], int) else None
+            if f['q'] in S3N_EXCEPTIONS:
+                ctx.note('S3n', key, 'not proved; triaged by reading: ' + S3N_EXCEPTIONS[f['q']], f, line=line)
+                continue
+            ctx.bad('S3n', key, 'mpz_powm is called with the exponent q on a path that has not established q > 0 (the guard is "q != 0" at most): for a stream-supplied '
+                    'negative q and a base that is not invertible modulo p (0, or a multiple of a factor of p) GMP divides by zero and the process is killed', f, line=line)
+        if ('S3n:%s' % f['q']) not in seen and any(
+                ev[1] == 'mpz_powm' and len(ev[2]) >= 4 and ev[2][2] == q for nid, ev in a.all_events('call')):
+            ctx.ok('S3n', 'S3n:%s' % f['q'], 'every power with the exponent q is taken after q > 0 was established', f)
+    ctx.floor('S3n', n, 8)
